@@ -217,6 +217,7 @@ func (rt *Target) Start(ctx context.Context, msgMeta *module.MsgMetadata, mailFr
 			policies = append(policies, p.Start(msgMeta))
 		}
 	}
+	policies = verifPolicies(rt, msgMeta, policies)
 
 	var (
 		ratelimitDomain string
@@ -274,6 +275,7 @@ func (rd *remoteDelivery) AddRcpt(ctx context.Context, to string, opts smtp.Rcpt
 	defer trace.StartRegion(ctx, "remote/AddRcpt").End()
 
 	if rd.msgMeta.Quarantine {
+		verifRcpt(rd, to, "quarantine", errVerifQuarantined)
 		return &exterrors.SMTPError{
 			Code:         550,
 			EnhancedCode: exterrors.EnhancedCode{5, 7, 0},
@@ -309,15 +311,18 @@ func (rd *remoteDelivery) AddRcpt(ctx context.Context, to string, opts smtp.Rcpt
 
 	conn, err := rd.connectionForDomain(ctx, domain)
 	if err != nil {
+		verifRcpt(rd, to, "conn", err)
 		return err
 	}
 
 	if err := conn.Rcpt(ctx, to, opts); err != nil {
+		verifRcpt(rd, to, "rcpt", err)
 		return moduleError(err)
 	}
 	conn.lastUseAt = time.Now()
 
 	rd.recipients = append(rd.recipients, to)
+	verifRcpt(rd, to, "", nil)
 	return nil
 }
 
@@ -390,6 +395,8 @@ func (rd *remoteDelivery) Body(ctx context.Context, header textproto.Header, buf
 
 func (rd *remoteDelivery) BodyNonAtomic(ctx context.Context, c module.StatusCollector, header textproto.Header, b buffer.Buffer) {
 	defer trace.StartRegion(ctx, "remote/BodyNonAtomic").End()
+	c = verifBody(rd, c)
+	defer verifBodyDone(rd)
 
 	if rd.msgMeta.Quarantine {
 		for _, rcpt := range rd.recipients {
@@ -419,6 +426,7 @@ func (rd *remoteDelivery) BodyNonAtomic(ctx context.Context, c module.StatusColl
 			}
 			defer bodyR.Close()
 
+			verifData(rd, conn)
 			err = conn.Data(ctx, header, bodyR)
 			for _, rcpt := range conn.Rcpts() {
 				c.SetStatus(rcpt, err)
@@ -442,6 +450,7 @@ func (rd *remoteDelivery) Commit(ctx context.Context) error {
 }
 
 func (rd *remoteDelivery) Close() error {
+	verifClose(rd)
 	for _, conn := range rd.connections {
 		rd.rt.limits.ReleaseDest(conn.domain)
 		conn.transactions++
